@@ -477,7 +477,7 @@ def check(ctx: Ctx):
     _order_rule(ctx, repo)
     n = _copystate(ctx, repo)
     if n < 5:
-        raise AnalysisError(f"R-COPYSTATE: only {n} self-constructing calls found in slice/partial methods (floor 5)")
+        ctx.defer(f"R-COPYSTATE: only {n} self-constructing calls found in slice/partial methods (floor 5)")
     _positional(ctx, repo)
     _remaining(ctx, repo)
     _immut(ctx, repo)
